@@ -1,0 +1,16 @@
+//go:build verif
+
+package autometa
+
+// Contracts for the verification machinery in /verif (vcgo). Comment-only.
+// ok_/w_/h_/d_ are the (assumed deterministic) results of each format's extractMetadata
+// as functions of the bytes it is given; S = the bytes r has still to deliver at entry.
+
+//@ func Load
+//@   ensures [C07,C19] stream-non-nil: imgStream != nil
+//@   ensures [C07,C19] replays-input: stream_len(imgStream) == old(r.avail) && (forall j int :: 0 <= j && j < old(r.avail) ==> stream_at(imgStream, j) == u8(r, old(r.pos) + j))
+//@   ensures [C19] succeeds-iff-some-loader-does: (err == nil) == (old(ufc("ok_png", r)) || old(ufc("ok_jpeg", r)) || old(ufc("ok_webp", r)))
+//@   ensures [C19] first-successful-loader-wins-width: err == nil ==> md != nil && md.PixelWidth == ite(old(ufc("ok_png", r)), old(ufc("w_png", r)), ite(old(ufc("ok_jpeg", r)), old(ufc("w_jpeg", r)), old(ufc("w_webp", r))))
+//@   ensures [C19] first-successful-loader-wins-height: err == nil ==> md != nil && md.PixelHeight == ite(old(ufc("ok_png", r)), old(ufc("h_png", r)), ite(old(ufc("ok_jpeg", r)), old(ufc("h_jpeg", r)), old(ufc("h_webp", r))))
+//@   ensures [C19] first-successful-loader-wins-depth: err == nil ==> md != nil && md.BitsPerComponent == ite(old(ufc("ok_png", r)), old(ufc("d_png", r)), ite(old(ufc("ok_jpeg", r)), old(ufc("d_jpeg", r)), old(ufc("d_webp", r))))
+//@   ensures [C19] failure-returns-no-metadata: err != nil ==> md == nil
